@@ -33,8 +33,9 @@ def const_value(k):
 class Rec:
     """Expression recovery for one function body."""
 
-    def __init__(self, fn, db=None, depth=40, keep_names=False):
+    def __init__(self, fn, db=None, depth=40, keep_names=False, ite=False):
         self.keep_names = keep_names
+        self.ite = ite      # if-conversion of two-armed conditional assignments (opt-in: changes how multi-def locals are recovered)
         self.fn = fn
         self.db = db
         self.defs = fn.defs()
@@ -42,8 +43,23 @@ class Rec:
         self._memo = {}
 
     # ---- classification of locals
+    def at(self, block):
+        """A view of this recovery for uses located in `block`: a local with several definitions of which only one can reach `block`
+        (the others sit on paths that never get there, e.g. the constant arm of a threaded `a && b`) is recovered from that definition."""
+        r = Rec(self.fn, self.db, self.maxdepth, self.keep_names, self.ite)
+        r.ctx_block = block
+        return r
+
     def single_def(self, l):
         d = self.defs.get(l, [])
+        cb = getattr(self, 'ctx_block', None)
+        if len(d) > 1 and cb is not None and not (1 <= l <= self.fn.arg_count) and l not in self.fn.borrowed_mut and not self.fn.partial.get(l) \
+                and self.fn.local_ty(l) == 'bool':      # boolean condition variables only: other user variables keep one spelling everywhere
+            live = [x for x in d if x[0] == cb or self.fn.reaches(x[0], cb)]
+            if len(live) == 1:
+                # the surviving definition must also dominate the use (it is then the value on every path into the block)
+                if live[0][0] == cb or self.fn.dominates(live[0][0], cb):
+                    return live[0]
         if len(d) != 1:
             return None
         if l in self.fn.borrowed_mut:
@@ -68,7 +84,7 @@ class Rec:
         else:
             d = self.single_def(l)
             if d is None:
-                r = ('v', l)
+                r = (self.if_converted(l, depth) if self.ite else None) or ('v', l)
             else:
                 bi, si, x = d
                 if si == 'term':
@@ -79,6 +95,47 @@ class Rec:
                     r = ('named', self.fn.local_name(l), r)
         self._memo[key] = r
         return r
+
+    def if_converted(self, l, depth):
+        """A local assigned exactly once in each arm of one two-way branch (`let x = if c { a } else { b }`, a two-arm match on a bool):
+        ('ite', c, a, b).  None when the shape is anything else."""
+        fn = self.fn
+        d = self.defs.get(l, [])
+        if len(d) != 2 or l in fn.borrowed_mut or fn.partial.get(l) or (1 <= l <= fn.arg_count):
+            return None
+        (b1, s1, x1), (b2, s2, x2) = d
+        if b1 == b2 or s1 == 'term' or s2 == 'term':
+            return None
+        dom = fn.dominators()
+        common = [b for b in dom.get(b1, ()) if b in dom.get(b2, ()) and b not in (b1, b2)]
+        # nearest common dominator = the one dominated by all others
+        best = None
+        for c in common:
+            if all(o in dom.get(c, ()) for o in common):
+                best = c
+        if best is None:
+            return None
+        t = fn.term(best)
+        if t['k'] != 'switch' or t.get('discr_ty') != 'bool' or len(t['arms']) != 1 or int(t['arms'][0][0]) != 0:
+            return None
+        f_tgt, t_tgt = t['arms'][0][1], t['otherwise']
+        if f_tgt == t_tgt:
+            return None
+
+        def side(b):
+            in_t = fn.dominates(t_tgt, b) or b == t_tgt
+            in_f = fn.dominates(f_tgt, b) or b == f_tgt
+            return 't' if in_t and not in_f else ('f' if in_f and not in_t else None)
+        sd1, sd2 = side(b1), side(b2)
+        if {sd1, sd2} != {'t', 'f'}:
+            return None
+        # no loop between the branch and the definitions (each arm executes at most once per evaluation of the branch)
+        for L in fn.loops():
+            if (b1 in L['body']) != (best in L['body']) or (b2 in L['body']) != (best in L['body']):
+                return None
+        cond = self.operand(t['discr'], depth + 1)
+        v1, v2 = self.rvalue(x1, depth + 1), self.rvalue(x2, depth + 1)
+        return ('ite', cond, v1, v2) if sd1 == 't' else ('ite', cond, v2, v1)
 
     def place(self, p, depth=0):
         e = self.local(p['l'], depth)
@@ -290,6 +347,8 @@ def _show(e):
         return f'next#{e[2]}({_show(e[1])})'
     if t == 'elem':
         return f'elem#{e[2]}({_show(e[1])})'
+    if t == 'ite':
+        return f'(if {_show(e[1])} {{ {_show(e[2])} }} else {{ {_show(e[3])} }})'
     return str(e)
 
 
@@ -388,6 +447,8 @@ def canon(e):
         return f'elem({canon(e[1])})'
     if t == 'sub':
         return f'{canon(e[1])}[{e[2]}..{e[3]}{"e" if e[4] else ""}]'
+    if t == 'ite':
+        return f'ite({canon(e[1])},{canon(e[2])},{canon(e[3])})'
     return str(e)
 
 
